@@ -198,12 +198,17 @@ def build(tier):
                  "earlier_session": ["none", "requested", "unstarted", "started"]},
                 goals=["single", "list", "unknown", "no-firmware", "bad-type", "same-firmware"],
                 doc="update_fw call forms: who is scheduled, restart, reboot flag"),
-        Harness("ota-history", ota_history(["2.2"] if q else ["1.4", "2.2"], 4 if q else 5),
-                {"events": 4 if q else 5, "kinds": OTA_KINDS, "nodes": 2,
+        Harness("ota-history", ota_history(["2.2"], 4 if q else 5),
+                {"events": 4 if q else 5, "kinds": OTA_KINDS, "nodes": 2, "version": "2.2",
                  "requests": "symbolic words / block index"},
                 goals=["ota-history"],
                 doc="bounded OTA histories through the public API vs the session automaton"),
     ]
+    if not q:
+        hs.append(Harness("ota-history-1.4", ota_history(["1.4"], 4),
+                          {"events": 4, "kinds": OTA_KINDS, "nodes": 2, "version": "1.4"},
+                          goals=["ota-history"],
+                          doc="the same histories (4 events) on a 1.4 gateway"))
     return {
         "harnesses": hs,
         "level_text": "inductive one-step equivalence of respond_fw_config/respond_fw/_get_fw and "
